@@ -15,7 +15,7 @@ theorem scanIncFile_nil (fs : FS) (fuel : Nat) (stack : List (Nat × Nat)) (cur 
     scanIncFile fs (fuel + 1) stack cur pos [] st =
       match flushPending st with
       | .error e => .error e
-      | .ok st' => if anyExplicit st'.ctx.frames then .error (.ctx .unclosedAtEOF) else .ok st' := rfl
+      | .ok st' => if stack.isEmpty && anyExplicit st'.ctx.frames then .error (.ctx .unclosedAtEOF) else .ok st' := rfl
 
 theorem scanIncFile_dir (fs : FS) (fuel : Nat) (stack : List (Nat × Nat)) (cur pos : Nat) (d : Dir)
     (rest : List FTok) (st : PScan) :
@@ -760,7 +760,7 @@ theorem scanIncFile_view (fs : FS) :
       rw [scanIncFile_nil, scanIncFile_nil]
       rcases hflush with ⟨e, h1, h2⟩ | ⟨a, b, h1, h2, hab, hab'⟩
       · rw [h1, h2]
-      · rw [h1, h2]; simp only [hab]
+      · rw [h1, h2]; simp only [hab, hempty]
         split
         · rfl
         · simp [view, hab, hab']
@@ -957,29 +957,18 @@ theorem scanIncFile_prefix (fs : FS) (stack : List (Nat × Nat)) (cur : Nat) :
                     rw [List.cons_append, scanIncFile_incl_file_ok fs N stack cur pos g _ body st stf hg hs hfl, hi]
                     exact ho X⟩
 
-/-- the INCLUDE of a file without INCLUDE and JSIGHT, against its text, from the same state: the complete comparison.
-The two runs end alike unless the included file ends inside a parenthesised context.  (Since the repair F42 the
-directive that is pending at the end of the included file is placed at the very next step of the spliced run as well —
-also when that step is an INCLUDE —, so a failure to place it is the same error in both runs.) -/
+/-- the INCLUDE of a file without INCLUDE and JSIGHT, against its text, from the same state: the two runs end alike.
+(Since the repair F42 the directive that is pending at the end of the included file is placed at the very next step of
+the spliced run as well — also when that step is an INCLUDE —, so a failure to place it is the same error in both runs.
+Since the repair of `processEOF` nothing else happens at the end of an included file: the unclosed-parenthesis check is
+made at the end of the root file only, and the included file is scanned below the non-empty stack `(cur, pos) :: stack`.) -/
 theorem textual_at (fs : FS) (stack : List (Nat × Nat)) (cur pos f : Nat) (body post : List FTok) (st : PScan)
     (hf : fs.get? f = some (.file body)) (hincl : ∀ g v, FTok.incl g v ∉ body)
     (hjs : ∀ d, FTok.dir d ∈ body → d.kind ≠ Kind.Jsight) (hs : stack.any (·.1 == cur) = false) (n1 n2 : Nat)
     (h1 : scanIncFile fs n1 stack cur pos (FTok.incl f true :: post) st ≠ .error (.inc .fuel))
     (h2 : scanIncFile fs n2 stack cur pos (body ++ post) st ≠ .error (.inc .fuel)) :
-    match flatRun body st.ctx st.pending with
-    | .error e =>
-      scanIncFile fs n1 stack cur pos (FTok.incl f true :: post) st = .error (.ctx e) ∧
-      scanIncFile fs n2 stack cur pos (body ++ post) st = .error (.ctx e)
-    | .ok cp =>
-      match flushC cp.1 cp.2 with
-      | .error e =>
-        scanIncFile fs n1 stack cur pos (FTok.incl f true :: post) st = .error (.ctx e) ∧
-        scanIncFile fs n2 stack cur pos (body ++ post) st = .error (.ctx e)
-      | .ok c' =>
-        if anyExplicit c'.frames then
-          scanIncFile fs n1 stack cur pos (FTok.incl f true :: post) st = .error (.ctx .unclosedAtEOF)
-        else view (scanIncFile fs n1 stack cur pos (FTok.incl f true :: post) st) =
-          view (scanIncFile fs n2 stack cur pos (body ++ post) st) := by
+    view (scanIncFile fs n1 stack cur pos (FTok.incl f true :: post) st) =
+      view (scanIncFile fs n2 stack cur pos (body ++ post) st) := by
   have hcut := scanIncFile_mono fs n1 stack cur pos (FTok.incl f true :: post) st (n2 + body.length + 2) h1
   have hspl := scanIncFile_mono fs n2 stack cur pos (body ++ post) st (n1 + body.length + body.length + 1) h2
   have e1 : n1 + (n2 + body.length + 2) = (n1 + n2 + body.length) + 2 := by omega
@@ -994,28 +983,23 @@ theorem textual_at (fs : FS) (stack : List (Nat × Nat)) (cur pos f : Nat) (body
   rw [hout] at hspl
   rw [← hcut, ← hspl]
   cases hfr : flatRun body st.ctx st.pending with
-  | error e => exact ⟨rfl, rfl⟩
+  | error e => rfl
   | ok cp =>
     simp only []
     rw [scanIncFile_nil, flush_eq]
     simp only []
+    have e4 : n1 + n2 + 1 + body.length = (n1 + n2 + body.length) + 1 := by omega
     cases hfc : flushC cp.1 cp.2 with
     | error e =>
-      refine ⟨rfl, ?_⟩
-      have e4 : n1 + n2 + 1 + body.length = (n1 + n2 + body.length) + 1 := by omega
-      rw [e4]
-      apply scanIncFile_flush_error
-      rw [flush_eq]; simp only [hfc]
-    | ok c' =>
       simp only []
-      cases hae : anyExplicit c'.frames with
-      | true => simp only [↓reduceIte]
-      | false =>
-        simp only [Bool.false_eq_true, ↓reduceIte]
-        have hfl : flushPending { ctx := cp.1, pending := cp.2, traces := tr1 } =
-            .ok { ctx := c', pending := none, traces := tr1 } := by rw [flush_eq]; simp only [hfc]
-        rw [← scanIncFile_flush fs _ stack cur (pos + 1) post _ _ hfl]
-        exact scanIncFile_view fs _ stack stack cur _ _ post _ _ rfl rfl rfl
+      rw [e4, scanIncFile_flush_error fs _ stack cur (pos + body.length) post
+        { ctx := cp.1, pending := cp.2, traces := tr2 } (.ctx e) (by rw [flush_eq]; simp only [hfc])]
+    | ok c' =>
+      simp only [List.isEmpty_cons, Bool.false_and, Bool.false_eq_true, ↓reduceIte]
+      have hfl : flushPending { ctx := cp.1, pending := cp.2, traces := tr2 } =
+          .ok { ctx := c', pending := none, traces := tr2 } := by rw [flush_eq]; simp only [hfc]
+      rw [scanIncFile_flush fs _ stack cur (pos + body.length) post _ _ hfl]
+      exact scanIncFile_view fs _ stack stack cur _ _ post _ _ rfl rfl rfl
 
 /-- a comparison of the scans of two continuations `X`, `Y` carries over to `pre ++ X`, `pre ++ Y` -/
 theorem prefix_lift (fs : FS) (stack : List (Nat × Nat)) (cur : Nat) (pre X Y : List FTok)
